@@ -252,6 +252,7 @@ Verdict judge_c05(Plan const& p, History const& h, RunInfoLite const& ri)
   }
   v.nontrivial = threads.size() >= 2 && checked >= 5 && ri.preemptions >= 1;
   v.probes["writes_checked"] = checked;
+  backlog_probes(m, p, v);
   v.probes["timely_statement_writes"] = timely;
   v.probes["late_statement_writes"] = late;
   v.probes["inversions_excused_because_late"] = excused;
